@@ -191,13 +191,17 @@ func (w *WAL) Read() ([]types.Entry, error) {
 		// data length
 		var n int64
 		if err = binary.Read(reader, binary.LittleEndian, &n); err != nil {
-			return nil, err
+			// the log ends inside a record: a tail torn by a crash, everything before it is intact
+			break
+		}
+		if n < 0 || n > int64(reader.Len()) {
+			break
 		}
 
 		// data body
 		data := make([]byte, n)
 		if err = binary.Read(reader, binary.LittleEndian, &data); err != nil {
-			return nil, err
+			break
 		}
 
 		var entry types.Entry
